@@ -3,8 +3,13 @@ package main
 // Cases added after the ninth (short) round of seeded changes (DESIGN 14.11).
 
 import (
+	"context"
+	"errors"
 	"io"
+	"net"
 	"strings"
+	"sync/atomic"
+	"time"
 
 	"github.com/gobwas/httphead"
 	"github.com/gobwas/ws"
@@ -21,6 +26,8 @@ func init() {
 		}
 	}
 	r9Wrap("C19", r9Panics)
+	r9Wrap("C20", r9C20D)
+	replayers["C20D"] = func(c *ctx, in []string) { c20D(c, in[0], in[1] == "1", in[2] == "1") }
 	r9Wrap("C01", r9NFC)
 	replayers["NFC"] = func(c *ctx, in []string) { nfc(c, in[0], in[1] == "1", unhx(in[2])) }
 	r9Wrap("C17", r9Panics)
@@ -126,6 +133,73 @@ func r9NFC(c *ctx) {
 			if strings.HasPrefix(ctor, "frame") {
 				nfc(c, ctor, false, p)
 			}
+		}
+	}
+}
+
+// C20D: the conn's SetDeadline / SetReadDeadline / SetWriteDeadline FAIL (a transport without deadline support). Whatever
+// Dial makes of it: a non-nil error only after closing the conn, a nil error only with a completed handshake.
+//
+//	C20D <ctx kind> <tmo 0|1> -> <error class> <closed at return 0|1> <handshake bytes answered 0|1>
+type c20dConn struct {
+	c16dConn
+	closed int32
+}
+
+var errNoDeadline = errors.New("verif: deadlines are not supported")
+
+func (f *c20dConn) Close() error                     { atomic.StoreInt32(&f.closed, 1); return nil }
+func (f *c20dConn) SetDeadline(time.Time) error      { return errNoDeadline }
+func (f *c20dConn) SetReadDeadline(time.Time) error  { return errNoDeadline }
+func (f *c20dConn) SetWriteDeadline(time.Time) error { return errNoDeadline }
+
+func c20D(c *ctx, kind string, tmo bool, full bool) {
+	ctx := context.Background()
+	var cancel context.CancelFunc = func() {}
+	switch kind {
+	case "cancel":
+		ctx, cancel = context.WithCancel(ctx)
+	case "deadline":
+		ctx, cancel = context.WithTimeout(ctx, time.Minute)
+	}
+	defer cancel()
+	k := 40 // the response is cut after 40 bytes by a timeout-type read error ...
+	if full {
+		k = 1 << 20 // ... or delivered completely
+	}
+	fc := &c20dConn{c16dConn: c16dConn{k: k}}
+	d := ws.Dialer{NetDial: func(ctx context.Context, network, addr string) (net.Conn, error) { return fc, nil }}
+	if tmo {
+		d.Timeout = time.Minute
+	}
+	cls, at := "hang", 0
+	done := make(chan struct{})
+	go func() {
+		defer close(done)
+		defer func() {
+			if recover() != nil {
+				cls = "panic"
+			}
+		}()
+		_, br, _, err := d.Dial(ctx, "ws://c20d.example/")
+		at = int(atomic.LoadInt32(&fc.closed))
+		if br != nil {
+			ws.PutReader(br)
+		}
+		cls = errClass(err)
+	}()
+	select {
+	case <-done:
+	case <-time.After(3 * time.Second):
+	}
+	c.emit("C20D %s %d %d -> %s %d", kind, b2i(tmo), b2i(full), cls, at)
+}
+
+func r9C20D(c *ctx) {
+	for _, kind := range []string{"bg", "cancel", "deadline"} {
+		for _, tmo := range []bool{false, true} {
+			c20D(c, kind, tmo, false)
+			c20D(c, kind, tmo, true)
 		}
 	}
 }
